@@ -54,9 +54,10 @@ THEOREMS = [
 RULE = (
     "A case is a script of user actions on a real FdFit (add dataset with renamings/numeric overrides, set value/"
     "bounds/fixed flag, fit, query, Jacobian-row probe); the optimiser's answers are recorded and fed to the model. "
-    "Streams: corpus (worked example, the inputs of observations O-C14-A/B/C, name reordering, every error path) + "
-    "exhaustive small scope (model y=a+b*x, 1-2 datasets (thorough: 1-3), every combination of target kinds own/"
-    "renamed/constant/other-parameter(/shared name) per parameter and dataset, 2-3 fixing/bounding patterns, each "
+    "Streams: corpus (corpus/C14/*.json + in-code: worked example, the inputs of observations O-C14-A/B/C, name "
+    "reordering, every error path) + exhaustive small scope (model y=a+b*x; quick: 1-2 datasets x target kinds own/"
+    "renamed/constant/other-parameter per parameter and dataset x 2 fixing patterns; thorough: 1-2 datasets with the "
+    "additional kind shared-name x 3 fixing/bounding patterns, and 3 datasets x 4 kinds with a rotating pattern; each "
     "with query, probe, fit, query, refit, query) + seeded random scripts (1-3 polynomial models with 1-5 "
     "parameters, optional shared kT, random defaults/bounds/fixed flags, analytic or 2-point Jacobian, 1-4 datasets "
     "on random models with renamings to fresh/pooled/foreign/duplicate names and int/float constants, NaN samples, "
@@ -839,6 +840,18 @@ def script(stream, models, actions, **kw):
     return c
 
 
+def corpus_files():
+    """corpus/C14/*.json: the inputs of the observations/findings, kept as files and run first forever"""
+    import glob
+    import os
+
+    d = os.path.join(os.path.dirname(os.path.dirname(os.path.abspath(__file__))), "corpus", "C14")
+    for f in sorted(glob.glob(os.path.join(d, "*.json"))):
+        c = json.load(open(f))
+        c["stream"] = "corpus"
+        yield c
+
+
 def corpus_cases():
     x = XS[:4]
     M = poly_spec("M", ["a", "b"], {"a": [1.0, None, None, False], "b": [2.0, -5.0, 5.0, False]})
@@ -1208,6 +1221,7 @@ def recover_case(rng, slow_ok=False):
 
 def cases(tier, rng):
     quick = tier == "quick"
+    yield from corpus_files()
     yield from corpus_cases()
     r = rng.fork("c14-recover")
     for i in range(60 if quick else 800):
